@@ -8,11 +8,57 @@ and a complete enumeration of the mutation sequences of a structured case space;
 ASan/UBSan + a step budget + the parse/serialize round trip of the real classes."""
 import concurrent.futures
 import random
+import xml.dom.minidom
 
 import codec_common as cc
 import vf
 
 LEVEL = "exploration"
+
+
+def _known_namespace_jobs(seeds, quick):
+    """AddUnknownChild: for every distinct parent element (namespace, name) of the corpus, at its first
+    occurrence, a new first child with an unknown name in every namespace that a child of such an element
+    (or the element itself) has anywhere in the corpus -- the namespaces its parser evidently branches on.
+    Thorough tier: in addition every namespace of the whole corpus under every distinct root element."""
+    first = {}
+    known = {}
+    roots = {}
+    universe = set()
+
+    def walk(e, si, path):
+        sig = (e.namespaceURI or "", e.localName)
+        first.setdefault(sig, (si, path))
+        k = known.setdefault(sig, set())
+        k.add(e.namespaceURI or "")
+        universe.add(e.namespaceURI or "")
+        n = 0
+        for c in e.childNodes:
+            if c.nodeType == 1:
+                n += 1
+                k.add(c.namespaceURI or "")
+                walk(c, si, path + [n])
+
+    for si, sd in enumerate(seeds):
+        try:
+            d = xml.dom.minidom.parseString(
+                "<r xmlns:stream='http://etherx.jabber.org/streams' xmlns:db='jabber:server:dialback'>" + sd["xml"] + "</r>")
+        except Exception:
+            continue
+        root = next(c for c in d.documentElement.childNodes if c.nodeType == 1)
+        roots.setdefault((root.namespaceURI or "", root.localName), si)
+        walk(root, si, [])
+    jobs = []
+    for sig, (si, path) in sorted(first.items()):
+        for ns in sorted(known[sig]):
+            jobs.append({"k": "mut", "id": f"u{len(jobs)}", "seed": si, "off": 0, "anchor": 0, "client": True, "deep": False,
+                         "steps": [{"op": "AddUnknownChild", "abs": True, "p": path, "ns": ns}]})
+    if not quick:
+        for sig, si in sorted(roots.items()):
+            for ns in sorted(universe - known[sig]):
+                jobs.append({"k": "mut", "id": f"u{len(jobs)}", "seed": si, "off": 0, "anchor": 0, "client": True, "deep": False,
+                             "steps": [{"op": "AddUnknownChild", "abs": True, "p": [], "ns": ns}]})
+    return jobs, {"parent_signatures": len(first), "namespaces": len(universe), "root_signatures": len(roots)}
 
 
 def _jobs(chk, seeds, plans2, plans3, quick):
@@ -75,6 +121,9 @@ def run(chk, replay=None):
             p3 = [p for p in p3 if len(p["steps"]) == 3]
             gen = {"single": st1, "pairs": st2, "triples": st3}
             jobs = _jobs(chk, seeds, p2, p3, quick)
+            ujobs, ustats = _known_namespace_jobs(seeds, quick)
+            jobs += ujobs
+            chk.cov["known_namespace_children"] = dict(ustats, documents=len(ujobs))
         chk.cov["generation"] = gen
         vf.write_ndjson(chk.path("jobs.ndjson"), jobs)
         # 3. the real parsers (ASan/UBSan build), sharded; every job is announced before it runs
@@ -96,7 +145,8 @@ def run(chk, replay=None):
         return dict(job_by_id[jid], **{"from": int(k), "upto": int(k) + 1}) if k else job_by_id[jid]
 
     posl = [o for o in lines if o.get("e") == "Positions" and not o.get("from")]
-    onestep = [o for o in docs if o["e"] == "Doc" and len(o.get("steps", [])) == 1 and o["steps"][0].get("abs")]
+    onestep = [o for o in docs if o["e"] == "Doc" and len(o.get("steps", [])) == 1 and o["steps"][0].get("abs")
+               and o["steps"][0]["op"] != "AddUnknownChild"]
     muts = [o for o in docs if o["e"] == "Doc"]
     nontrivial = {o["h"] for o in muts if o.get("wfdoc") and any(o.get("applied", [])) and o.get("runs", 0) > 0 and "h" in o}
     ops = {}
@@ -177,7 +227,8 @@ def run(chk, replay=None):
                     f"{c['stderr_tail']}")
         else:
             what = (f"{c['kind']} while handing a well-formed element to the parsers/client: {c['report'] or c['stderr_tail'][-300:]} "
-                    f"(job {j.get('id')}, seed #{j.get('seed')} {c.get('seed_src', '')}, {c.get('plan') or [st['op'] for st in j.get('steps', [])]})")
+                    f"(document {c.get('case') or j.get('id')}, seed #{j.get('seed')} {c.get('seed_src', '')}, "
+                    f"{c.get('plan') or by_case.get(c.get('case'), {}).get('plan') or [st['op'] for st in j.get('steps', [])]})")
         chk.violation(sig, what, [j])
     # 6. no dependence on uninitialised memory: the seeds once more with another heap fill pattern
     det = cc.determinism(chk, "c02det", [j for j in jobs if j["k"] == "seed"], seeds_path, lines) if not replay else []
